@@ -448,3 +448,76 @@ Proof.
   - intros H. destruct (find (admissible F fs near) (candidates F gos near)) as [d|] eqn:Ef; auto.
     apply find_some in Ef. destruct Ef as [Hd Ha]. rewrite (H d Hd) in Ha. discriminate.
 Qed.
+
+(* ---- piles of arbitrary well-founded forests have no duplicates ---- *)
+(* every over lies strictly higher (some rank decreases towards the top) and
+   the primary under of a box names that box as its over *)
+Definition wf_forest (F : forest) : Prop :=
+  exists rank : nat -> nat,
+    (forall b o, over F b = Some o -> rank o < rank b) /\
+    (forall b u, under0 F b = Some u -> over F u = Some b).
+
+Inductive chain (F : forest) : list nat -> Prop :=
+| chain_nil : chain F []
+| chain_one : forall x, chain F [x]
+| chain_cons : forall x y l, over F y = Some x -> chain F (y :: l) -> chain F (x :: y :: l).
+
+Lemma chain_app : forall F l1 b l2, chain F (l1 ++ [b]) -> chain F (b :: l2) -> chain F (l1 ++ b :: l2).
+Proof.
+  intros F l1 b l2 H1 H2. induction l1 as [|x l1 IH]; simpl in *; auto.
+  destruct l1 as [|y l1]; simpl in *.
+  - inversion H1; subst. constructor; auto.
+  - inversion H1; subst. constructor; auto.
+Qed.
+
+Lemma chain_snoc : forall F l o b, chain F (l ++ [o]) -> over F b = Some o -> chain F ((l ++ [o]) ++ [b]).
+Proof.
+  intros F l o b H Ho. rewrite <- app_assoc. simpl. apply chain_app; auto.
+  constructor; auto. constructor.
+Qed.
+
+Lemma ups_acc : forall F fuel b acc, ups F fuel b acc = ups F fuel b [] ++ acc.
+Proof.
+  intros F fuel. induction fuel as [|f IH]; intros b acc; simpl; auto.
+  destruct (over F b) as [o|]; auto.
+  rewrite (IH o (o :: acc)), (IH o [o]). rewrite <- app_assoc. reflexivity.
+Qed.
+
+Lemma ups_chain : forall F fuel b, chain F (ups F fuel b [] ++ [b]).
+Proof.
+  intros F fuel. induction fuel as [|f IH]; intros b; simpl; [constructor|].
+  destruct (over F b) as [o|] eqn:Eo; [|constructor].
+  rewrite ups_acc. apply chain_snoc; auto.
+Qed.
+
+Lemma downs_chain : forall F fuel b,
+  (forall b u, under0 F b = Some u -> over F u = Some b) -> chain F (b :: downs F fuel b).
+Proof.
+  intros F fuel. induction fuel as [|f IH]; intros b H; simpl; [constructor|].
+  destruct (under0 F b) as [u|] eqn:Eu; [|constructor].
+  constructor; auto.
+Qed.
+
+Lemma chain_rank : forall F rank l x y,
+  (forall b o, over F b = Some o -> rank o < rank b) ->
+  chain F (x :: l) -> In y l -> rank x < rank y.
+Proof.
+  intros F rank l. induction l as [|z l IH]; intros x y Hr Hc Hin; [contradiction|].
+  inversion Hc; subst. destruct Hin as [->|Hin].
+  - now apply Hr.
+  - pose proof (Hr _ _ H1). pose proof (IH z y Hr H3 Hin). lia.
+Qed.
+
+Lemma chain_nodup : forall F rank l,
+  (forall b o, over F b = Some o -> rank o < rank b) -> chain F l -> NoDup l.
+Proof.
+  intros F rank l Hr. induction l as [|x l IH]; intros Hc; constructor.
+  - intro Hin. pose proof (chain_rank F rank l x x Hr Hc Hin). lia.
+  - apply IH. inversion Hc; subst; auto. constructor.
+Qed.
+
+Theorem pile_nodup : forall F b, wf_forest F -> NoDup (pile F b).
+Proof.
+  intros F b (rank & Hr & Hu). apply (chain_nodup F rank); auto.
+  unfold pile. apply chain_app; [apply ups_chain | now apply downs_chain].
+Qed.
